@@ -21,42 +21,42 @@ def _p(rules, decided, not_decided, technique, thorough_rules=()):
 
 
 PROPS = {
-    'C01': _p(['R-apply-step', 'R-append-gate', 'R-commit-gate', 'R-truncate-on-conflict', 'R-log-owners', 'R-leader-append-position', 'R-sender-prev-adjacent', 'R-commit-rule', 'R-match-writes', 'R-payload-complete', 'R-owners-log'],
+    'C01': _p(['R-apply-step', 'R-append-gate', 'R-commit-gate', 'R-truncate-on-conflict', 'R-log-owners', 'R-leader-append-position', 'R-sender-prev-adjacent', 'R-commit-rule', 'R-match-writes', 'R-payload-complete', 'R-owners-log', 'L-undefined-name'],
               'apply-loop step discipline (exactly one advance per dispatched entry, batch bounded by the commit index); received entries stored '
               'only behind the log-matching gate; follower commit index raised only on a verified path and never past what the message verified; '
               'truncation only on a stored-vs-received conflict; who may truncate/clear/trim the log; snapshot payload positions agree between writer and loader.'
               ' Also: the index up to which a message is taken to have verified the log is derived from the message, never from the own log end; the journal head is dropped exactly up to the position the finished dump covers; log, applied / commit / match / next index are written only by their protocol owners.',
               ['agreement of two nodes under all schedules (global argument over interleavings, nextIndex/matchIndex dynamics, snapshot timing)'],
               'CFG reachability with obligation nodes removed (must-pass-through), path-sensitive must-facts, who-may-call'),
-    'C02': _p(['R-cb-linear', 'R-success-guard', 'R-disposition', 'R-commit-subscription', 'R-request-id-unique', 'R-commit-gate', 'R-owners-callbacks'],
+    'C02': _p(['R-cb-linear', 'R-success-guard', 'R-disposition', 'R-commit-subscription', 'R-request-id-unique', 'R-commit-gate', 'R-owners-callbacks', 'L-undefined-name'],
               'callback linearity (a callback taken from the queue or a waiting table is consumed exactly once on every path); SUCCESS only under '
               'stored-term == applied-term with the dispatch result of that entry; exactly one disposition (append / forward / error) per dequeued command; '
               'a callback waits at exactly the (index, term) its command was appended with; request ids never reused.'
               " Also: QUEUE_FULL is reported only from a handler that catches nothing but the queue's Full; the two callback tables are written only by the drain, the handler, the apply step and the leader-change sweep (a local alias of a table is recognised, rebinding it is not a reset).",
               ['that a SUCCESS-reported command is never undone later (global, see C04)', 'timeouts'],
               'linear typestate by event counting over path-sensitive CFG exploration, guard entailment, def-use'),
-    'C03': _p(['R-vote-grant', 'R-term-vote-writes', 'R-majority', 'R-leader-entry', 'R-step-down', 'R-leader-append-position', 'R-match-writes', 'R-tally-reset', 'R-owners-election'],
+    'C03': _p(['R-vote-grant', 'R-term-vote-writes', 'R-majority', 'R-leader-entry', 'R-step-down', 'R-leader-append-position', 'R-match-writes', 'R-tally-reset', 'R-owners-election', 'L-undefined-name'],
               'the five Raft vote-grant conditions are entailed at the grant; term only grows and the vote is reset only with a term change; every majority '
               'test is a strict majority of voters+self over the voter set; LEADER is entered only behind a majority test as CANDIDATE of the current term; '
               'newer terms / accepted append_entries lead to FOLLOWER.'
               ' Also: every candidacy resets the vote tally to 1; term, vote, state, tally, election deadline and leader pointer are written only by their owners.',
               ['the global counting argument (one leader per term follows from these local rules plus FIFO links)', 'vote duplication across restarts (C07)'],
               'path-sensitive must-fact guard entailment, small-domain evaluation of extracted majority arithmetic'),
-    'C04': _p(['R-commit-rule', 'R-match-writes', 'R-ack-after-store', 'R-truncate-on-conflict', 'R-commit-gate', 'R-leader-append-position', 'R-sender-prev-adjacent', 'R-applied-monotone', 'R-majority', 'R-rollback-paired', 'R-owners-log'],
+    'C04': _p(['R-commit-rule', 'R-match-writes', 'R-ack-after-store', 'R-truncate-on-conflict', 'R-commit-gate', 'R-leader-append-position', 'R-sender-prev-adjacent', 'R-applied-monotone', 'R-majority', 'R-rollback-paired', 'R-owners-log', 'L-undefined-name'],
               'leader commits only an index stored on a strict majority of voters whose entry has the current term; matchIndex only raised for a successful reply, '
               'upwards, to the acknowledged index; positive acknowledgement only after gate + store (or completed install) with a recognised index; truncation only on '
               'conflict; follower commit only on verified paths, monotone and bounded by the leader commit.'
               ' Also: membership entries rolled back before a truncation are exactly the deleted ones; the verified index comes from the message; state ownership.',
               ['Log Matching as a global invariant'],
               'must-facts with alias/congruence closure, CFG dominance, small-domain arithmetic'),
-    'C05': _p(['R-timer-reset', 'R-heartbeat', 'R-vote-refusal-justified', 'R-sender-total', 'R-chunk-length', 'R-reply-exhaustive', 'R-disposition', 'R-serializer-idle', 'R-hint-floor', 'R-owners-election'],
+    'C05': _p(['R-timer-reset', 'R-heartbeat', 'R-vote-refusal-justified', 'R-sender-total', 'R-chunk-length', 'R-reply-exhaustive', 'R-disposition', 'R-serializer-idle', 'R-hint-floor', 'R-owners-election', 'L-undefined-name'],
               'progress obligations only: election deadline re-armed by accepted append_entries / grant / candidacy and candidacy guarded by the deadline; every '
               'iteration of the per-follower send loop sends; next index moved past a finished snapshot; every (reset, success) reply combination is acted on and refreshes '
               'the response time; no dequeued command is dropped silently.'
               ' Also: the serializer leaves its busy state whenever it reports a finished dump; a failure hint lowered below the received position stays above the first stored index.',
               ['convergence itself: leader election within bounded timeouts, catch-up, equality of replicas (liveness in virtual time)'],
               'CFG reachability (wedge detection), reply-combination table agreement'),
-    'C06': _p(['R-durable-before-ack', 'R-ack-after-store', 'R-dump-before-trim', 'R-restart-keeps-journal', 'R-log-owners', 'R-head-drop-atomic', 'R-write-then-publish', 'R-tail-drop-monotone', 'R-offset-coherent', 'R-commit-persisted-value', 'R-dump-atomic'],
+    'C06': _p(['R-durable-before-ack', 'R-ack-after-store', 'R-dump-before-trim', 'R-restart-keeps-journal', 'R-log-owners', 'R-head-drop-atomic', 'R-write-then-publish', 'R-tail-drop-monotone', 'R-offset-coherent', 'R-commit-persisted-value', 'R-dump-atomic', 'L-undefined-name'],
               'positive ack only after the journal add that reaches the file write and publish; serializer SUCCESS (which triggers the trim) only after the atomic rename / clean '
               'child exit; at start-up the journal is replaced only when it does not contain the dump position and a kept journal is trimmed exactly to it; head drop atomicity.'
               ' Also: the in-memory and the published end offset of the file journal agree at every record write and at every return; the head drop goes to the dumped position; distinct temporary names for own dump and incoming transfer.',
@@ -66,20 +66,20 @@ PROPS = {
               'whether currentTerm and votedFor ever reach durable storage before a vote leaves the node and are reloaded at start (decided negatively on this tree: known finding).',
               ['nothing further: the mechanism the property needs is structurally absent'],
               'def-use / effect analysis from vote events to durable sinks'),
-    'C08': _p(['R-write-then-publish', 'R-record-layout', 'R-bounded-write', 'R-meta-atomic', 'R-head-drop-atomic', 'R-tail-drop-monotone', 'R-offset-coherent', 'R-journal-siblings'],
+    'C08': _p(['R-write-then-publish', 'R-record-layout', 'R-bounded-write', 'R-meta-atomic', 'R-head-drop-atomic', 'R-tail-drop-monotone', 'R-offset-coherent', 'R-journal-siblings', 'L-undefined-name'],
               'record write precedes publish and the published offset is the running end; reader / writer / tail-drop byte layout constants agree with the struct formats; '
               'mmap store only when offset+size <= capacity is established; .meta only replaced via tmp+move; tail drop walks backwards, counts before cutting the mirror, '
               'stores and publishes the final offset; sibling journals implement the same interface and every mutator updates mirror and file.'
               ' Also: in-memory / published end offset coherence for every operation, and the publish helper skips the header write only against a cache primed from the file.',
               ['equality with an in-memory list for all operation sequences (byte-level round trip)', 'head drop kill-safety (known finding)'],
               'ordering on CFGs, must-facts for the bounded write, table agreement against struct.calcsize, sibling cross-check'),
-    'C09': _p(['R-payload-complete', 'R-version-in-payload', 'R-no-field-leak', 'R-snapshot-point', 'R-dump-atomic', 'R-version-pairing', 'R-transfer-restart', 'R-transfer-flags', 'R-dump-before-trim', 'R-serializer-idle'],
+    'C09': _p(['R-payload-complete', 'R-version-in-payload', 'R-no-field-leak', 'R-snapshot-point', 'R-dump-atomic', 'R-version-pairing', 'R-transfer-restart', 'R-transfer-flags', 'R-dump-before-trim', 'R-serializer-idle', 'L-undefined-name'],
               'payload components and the positions the loader reads them from; enabled version inside the payload in every serializer mode; no internal attribute leaks into the payload; '
               'no apply between fixing the position and serializing; dump only ever renamed into place; name table rebuilt for the enabled version; interrupted transfers restart.'
               ' Also: the member component of the payload contains the writing node; checkSerializing resets the busy marker whenever it reports SUCCESS / FAILED; temporary dump names of different writers differ after resolving attributes bound in __init__.',
               ['pickle round-trip equality of user state', 'chunk reassembly under every interruption pattern'],
               'writer/reader table agreement, attribute def-order analysis, CFG reachability, call-graph reachability'),
-    'C10': _p(['R-gate-live', 'R-rollback-paired', 'R-apply-on-append', 'R-removed-excluded', 'R-owners-membership', 'R-payload-complete'],
+    'C10': _p(['R-gate-live', 'R-rollback-paired', 'R-apply-on-append', 'R-removed-excluded', 'R-owners-membership', 'R-payload-complete', 'L-undefined-name'],
               'the leader-side gate is live (pending marker set to the index of every appended membership entry, cleared only once applied, both gates dominate the mutation); '
               'truncation preceded by the reverse rollback of the same slice; snapshot adoption restores the member set; refused changes are not appended and stored ones are '
               'applied on followers; add/remove perform all their bookkeeping effects.'
@@ -87,60 +87,60 @@ PROPS = {
               ['quorum-overlap safety under interleavings (follows from the gate + C03/C04 by a paper argument)', 'operator discipline clauses'],
               'dead-guard / def-use analysis, path-sensitive reachability with obligation nodes removed, effect multiset per path',
               thorough_rules=['L-dead-guard']),
-    'C11': _p(['R-chunk-length', 'R-chunk-kinds', 'R-cmd-shapes', 'R-wire-schema', 'R-bounded-write', 'R-read-ungated'],
+    'C11': _p(['R-chunk-length', 'R-chunk-kinds', 'R-cmd-shapes', 'R-wire-schema', 'R-bounded-write', 'R-read-ungated', 'L-undefined-name'],
               'the chunk classifier uses the length of the sliced sequence and yields start, process*, finish for every size; sender kinds = receiver kinds with the right buffer effect '
               'per kind; command pack/unpack shapes agree and reserved keywords are removed before pickling; every key the handler reads is written by every consistent sender; journal write bounded.'
               ' Also: socket reads are never gated on the amount already buffered (a frame may exceed any buffer size).',
               ['equality of pickled arguments after transport (round trip)', 'exact batch arithmetic of __getEntries'],
               'small-domain evaluation of the extracted classifier, path-sensitive effect sequences, wire-schema agreement under must-facts'),
-    'C12': _p(['R-user-exc-contained', 'R-apply-step'],
+    'C12': _p(['R-user-exc-contained', 'R-apply-step', 'L-undefined-name'],
               'whether an exception of user code can leave the apply step (known finding on this tree), and that no handler continues with the next entry without advancing.',
               ['equality of replicas afterwards (determinism of user code)'],
               'exception-edge reachability on the CFG of the apply step and dispatcher'),
-    'C13': _p(['R-header-agree', 'R-codec-inverse', 'R-length-range', 'R-length-symmetry', 'R-decode-contained', 'R-consume-once', 'R-parser-state', 'R-write-fifo', 'R-disconnect-idempotent', 'R-read-ungated'],
+    'C13': _p(['R-header-agree', 'R-codec-inverse', 'R-length-range', 'R-length-symmetry', 'R-decode-contained', 'R-consume-once', 'R-parser-state', 'R-write-fifo', 'R-disconnect-idempotent', 'R-read-ungated', 'L-undefined-name'],
               'header format and literal sizes agree; receive pipeline is the reversed inverse of the send pipeline; received length bounded below and by the buffered bytes before use; '
               'decode errors contained => disconnect without consuming; buffer advanced exactly once per delivered frame by header+length; parser keeps no state but the buffer; '
               'write buffer is appended whole frames and trimmed by the sent prefix.'
               ' Also: reads are not gated on the buffered amount; every raising step on data derived from the payload is inside the catch-all; the end of the buffered frames is decided by identity with None.',
               ['behaviour of the kernel socket layer', '"for all fragmentations" as such (follows from R-parser-state: delivery is a function of the byte stream)'],
               'must-facts on slice bounds, exception-edge containment, event counting per path, table agreement with struct.calcsize'),
-    'C14': _p(['R-attribution', 'R-drop-teardown', 'R-dial-order', 'R-send-connected', 'R-silent-timeout', 'R-reconnect-wiring', 'R-disconnect-idempotent', 'R-readonly-id-unique', 'R-disc-attribution', 'R-established-checked'],
+    'C14': _p(['R-attribution', 'R-drop-teardown', 'R-dial-order', 'R-send-connected', 'R-silent-timeout', 'R-reconnect-wiring', 'R-disconnect-idempotent', 'R-readonly-id-unique', 'R-disc-attribution', 'R-established-checked', 'L-undefined-name'],
               'attribution only: delivery callback bound only after the peer named a known member or "readonly", bound node taken from the member table; dropNode tears down registry, '
               'member set, address table and connection; exactly one endpoint dials and only without a live connection; send only to a registered CONNECTED connection.'
               ' Also: a lost connection is attributed to a member only by comparing the registry entries with the connection object; CONNECTED is entered only behind a clear SO_ERROR.',
               ['reconnection within bounded time', 'half-open connection handling', 'accuracy of connect/disconnect notifications under fault sequences'],
               'must-fact guard entailment, effect multiset per path'),
-    'C15': _p(['R-delegate-agree', 'R-counter-ops', 'R-queue-bound', 'R-consumer-state', 'R-cmd-shapes', 'R-none-is-a-value', 'R-heap-discipline'],
+    'C15': _p(['R-delegate-agree', 'R-counter-ops', 'R-queue-bound', 'R-consumer-state', 'R-cmd-shapes', 'R-none-is-a-value', 'R-heap-discipline', 'L-undefined-name'],
               'every delegating battery method agrees with the builtin it forwards to (operation, parameter order, defaults, returned value; documented deviations tabled); counter arithmetic; '
               'bounded queues insert only below the bound, report acceptance truthfully, remove in queue order; battery state is created where it gets serialised.'
               ' Also: no wrapper decides absence of a key from a None lookup result (None is a value).',
               ['behavioural equivalence over operation sequences for the non-delegating methods', 'equality of replicas'],
               'signature-table agreement (cross-checked with inspect.signature of builtins), guard entailment'),
-    'C16': _p(['R-lock-guards', 'R-expiry-partition', 'R-late-acquire'],
+    'C16': _p(['R-lock-guards', 'R-expiry-partition', 'R-late-acquire', 'L-undefined-name'],
               'lock table transitions happen only under their guards; holder view and taker views of expiry are disjoint over (d<U, d=U, d>U); both acquisition paths apply the same '
               'late-acquire test, report failure and release; prolongation period at most half the auto-unlock time.'
               ' Also: after the "too late" test every path releases the lock and reports False, and both ends of the elapsed time come from the same clock.',
               ['exclusion under commit delay with unsynchronised clocks', 'eventual obtainability under partitions'],
               'guard entailment, comparator partition over a three-point domain, sibling agreement'),
-    'C17': _p(['R-id-order', 'R-name-format', 'R-setversion-guards', 'R-version-select', 'R-version-apply', 'R-apply-step', 'R-version-pairing', 'R-version-in-payload', 'R-enumeration-siblings'],
+    'C17': _p(['R-id-order', 'R-name-format', 'R-setversion-guards', 'R-version-select', 'R-version-apply', 'R-apply-step', 'R-version-pairing', 'R-version-in-payload', 'R-enumeration-siblings', 'L-undefined-name'],
               'ids assigned in sorted (version, consumer ordinal, name) order, consecutively, tables written only by the constructor; registration and lookup names share one format; '
               'setCodeVersion guards; resolver picks the newest version <= requested; VERSION apply refuses unsupported versions before switching and stops the batch; name table paired with the '
               'enabled version; enabled version carried by snapshots.'
               ' Also: every (wildcard) store of the enabled version reaches a rebuild of the name table on all normal paths; own and consumer methods are selected for id assignment by the same filter.',
               ['compatibility of old and new user code'],
               'def-use on sort keys, expression-shape agreement, guard entailment'),
-    'C18': _p(['R-majority', 'R-no-vote-without-address', 'R-observer-bookkeeping', 'R-readonly-id-unique', 'R-selfnode-deref', 'R-apply-on-append', 'R-owners-membership', 'R-sender-total'],
+    'C18': _p(['R-majority', 'R-no-vote-without-address', 'R-observer-bookkeeping', 'R-readonly-id-unique', 'R-selfnode-deref', 'R-apply-on-append', 'R-owners-membership', 'R-sender-total', 'L-undefined-name'],
               'all majorities measure and count the voter set only; no candidacy or vote without an own address, vote requests to voters only, observers only receive append_entries; '
               'observer connect/disconnect touch only observer bookkeeping; no unguarded dereference of the (possibly absent) own node in tick-reachable code.'
               ' Also: read-only nodes apply stored membership entries like voters do; voter / observer / connected sets have fixed owners.',
               ['convergence of observers (C05-like)'],
               'small-domain evaluation, effect summaries (footprints), None-dereference contradiction rule with must-facts'),
-    'C19': _p(['R-caller-footprint', 'R-queue-locked', 'R-result-publish', 'R-atomic-publish'],
+    'C19': _p(['R-caller-footprint', 'R-queue-locked', 'R-result-publish', 'R-atomic-publish', 'L-undefined-name'],
               'caller-thread code writes only the locked queue / wake-up pipe; every deque and tick-callback access is under its lock; result stored before the event is set, read only after the wait, '
               'per-call result object, timed-out or failed waits raise; caller-read tables are published by one assignment of a fully built value.',
               ['exactly-once application under all thread interleavings (C02 global part)'],
               'ownership/effect analysis with two thread roots, lock-scope check, CFG dominance'),
-    'C20': _p(['R-fallback-every-tick', 'R-response-time-writes', 'R-hasquorum', 'R-majority', 'R-owners-liveness'],
+    'C20': _p(['R-fallback-every-tick', 'R-response-time-writes', 'R-hasquorum', 'R-majority', 'R-owners-liveness', 'L-undefined-name'],
               'a leader reaches the fallback test on every tick; responders counted iff they answered within leaderFallbackTimeout over the voter set; failing arm => FOLLOWER and no leader; '
               'response times refreshed only by replies received as leader; hasQuorum equals strict majority of connected voters (+self) for n=0..8.'
               ' Also: a connection event never refreshes the response table; a voter without an entry never counts as recent; the table has fixed owners.',
